@@ -429,6 +429,10 @@ struct ShardResult {
 /// Runs faults [from,to) of a buffer in child processes; an abort or time-out is attributed to
 /// the fault announced last, and the shard is resumed after it.
 fn run_shard(buffer: usize, from: u64, to: u64) -> ShardResult {
+    run_shard_with(buffer, from, to, PER_FAULT_TIMEOUT_MS, true)
+}
+
+fn run_shard_with(buffer: usize, from: u64, to: u64, timeout_ms: u128, confirm_timeouts: bool) -> ShardResult {
     let exe = std::env::current_exe().unwrap();
     let mut outcomes = vec![];
     let mut next = from;
@@ -465,7 +469,7 @@ fn run_shard(buffer: usize, from: u64, to: u64) -> ShardResult {
                     }
                 }
                 Err(std::sync::mpsc::RecvTimeoutError::Timeout) => {
-                    if current.is_some() && last_progress.elapsed().as_millis() > PER_FAULT_TIMEOUT_MS {
+                    if current.is_some() && last_progress.elapsed().as_millis() > timeout_ms {
                         let _ = ch.kill();
                         timed_out = true;
                         break;
@@ -492,7 +496,17 @@ fn run_shard(buffer: usize, from: u64, to: u64) -> ShardResult {
         let _ = reader.join();
         if let Some(i) = current {
             let why = if timed_out {
-                format!("TIMEOUT>{}ms", PER_FAULT_TIMEOUT_MS)
+                // a slow machine must not turn into a verdict: the fault is re-executed alone with
+                // five times the limit, and only a second time-out is reported
+                if confirm_timeouts {
+                    let again = run_shard_with(buffer, i, i + 1, timeout_ms * 5, false);
+                    match again.outcomes.into_iter().next() {
+                        Some((_, o)) => o,
+                        None => format!("TIMEOUT>{}ms", timeout_ms * 5),
+                    }
+                } else {
+                    format!("TIMEOUT>{}ms", timeout_ms)
+                }
             } else {
                 match status.and_then(|s| s.code()) {
                     Some(77) => format!("ALLOCATION-CEILING-EXCEEDED>{}MiB", CEILING_BYTES >> 20),
